@@ -80,6 +80,7 @@ func genCase(r *Rng) Replay {
 			}
 			if r.Chance(1, 3) {
 				ps.Park = r.Range(1, n)
+				ps.ParkRng = r.Chance(1, 2)
 			}
 		}
 		if r.Chance(1, 8) {
